@@ -40,7 +40,7 @@ def main():
              "kind_free_text": "hand-written Gallina model + theorems (Coq 8.16.1), correspondence check running the model by vm_compute against labrea imported from /repo, property oracle on the implementation"}],
         "checks": checks,
         "not_applicable": na,
-        "notes": "See DESIGN.md. known_findings.json lists recorded findings and fixed defects.",
+        "notes": "See DESIGN.md. known_findings.json and findings/<PID>.json (committed, never written at run time) list recorded findings (status known) and repaired defects (status fixed, with the fix: commit in /repo); seeded/ holds the 120 seeded changes and seeded/DETECTION.md what catches them.",
     }
     with open(os.path.join(ROOT, "MANIFEST.json"), "w") as fh:
         json.dump(m, fh, indent=1)
